@@ -466,3 +466,30 @@ var subs = []pbt.Sub{
 
 func TestGen(t *testing.T)    { pbt.RunAll(t, subs) }
 func TestReplay(t *testing.T) { pbt.Replay(t, subs) }
+
+// FuzzParseRecord: whatever ParseRecord accepts must survive FormatRecord/ParseRecord unchanged.
+func FuzzParseRecord(f *testing.F) {
+	for _, s := range []string{"5\nexample.com/m v1.0.0 h1:abc=\n\nrest", "0\n\n\n", "12\na\nb\n\n7\nnext\n\n", "-1\nx\n\n", "+3\nx\n\n"} {
+		f.Add([]byte(s))
+	}
+	f.Fuzz(func(t *testing.T, msg []byte) {
+		id, text, rest, err := tlog.ParseRecord(msg)
+		c := recordText{ID: id, Text: string(text), Rest: string(rest)}
+		res := pbt.Result{NonTrivial: err == nil}
+		if err == nil {
+			if valid, leading := docValid(string(text)); !valid && !leading {
+				res.Fail = pbt.Failf("parserecord-accepts-invalid-text", "ParseRecord(%q) returned text %q, which is not valid record text", msg, text)
+			} else if !bytes.HasSuffix(msg, rest) {
+				res.Fail = pbt.Failf("parserecord-rest", "ParseRecord(%q) rest %q is not a suffix of the input", msg, rest)
+			} else if id >= 0 {
+				if r2 := checkRecordText(c); r2.Fail != nil {
+					res.Fail = r2.Fail
+				}
+			}
+		}
+		pbt.Count("fuzz-parserecord", c, res)
+		if res.Fail != nil {
+			pbt.ReportFuzz(t, "recordtext", c, res.Fail)
+		}
+	})
+}
